@@ -187,10 +187,10 @@ def build(spec, plain=False):
         m.tasks[j].append_input_task(m.tasks[i], task_dependency_mode=DEP[kind])
     chash = spec.get("chash") or list(range(len(spec.get("components", []))))
     for i, cs in enumerate(spec.get("components", [])):
-        c = CompC(name=cs["name"], ID=cs["name"], space_size=cs.get("space"))
+        c = CompC(name=cs["name"], ID=cs.get("id") or cs["name"], space_size=cs.get("space"))
         c._vh = 100 + chash[i]
         m.components.append(c)
-        m.byname[c.name] = c
+        m.byname[c.ID] = c
     for i, cs in enumerate(spec.get("components", [])):
         for ch in cs.get("children", []):
             m.components[i].append_child_component(m.components[ch])
@@ -241,7 +241,7 @@ def build(spec, plain=False):
         m.byname[team.name] = team
     for wps in spec.get("workplaces", []):
         cap = wps.get("cap")
-        wp = WpC(name=wps["name"], ID=wps["name"], max_space_size=float("inf") if cap == "inf" else cap)
+        wp = WpC(name=wps["name"], ID=wps.get("id") or wps["name"], max_space_size=float("inf") if cap == "inf" else cap)
         for fs in wps.get("facilities", []):
             f = FcC(
                 name=fs["name"],
@@ -259,7 +259,7 @@ def build(spec, plain=False):
         for ti in wps.get("targets", []):
             wp.append_targeted_task(m.tasks[ti])
         m.workplaces.append(wp)
-        m.byname[wp.name] = wp
+        m.byname[wp.ID] = wp
     for i, wps in enumerate(spec.get("workplaces", [])):
         for src in wps.get("inputs", []):
             if wps.get("wire_inputs") == "one-sided":
